@@ -1,20 +1,53 @@
 package main
 
-import "gopkg.in/typ.v4/lists"
+import (
+	"strconv"
+
+	"gopkg.in/typ.v4/lists"
+)
 
 // C16: lists.Queue / lists.Stack from the zero value.
 func init() { comps["queue"] = driveQueue }
 
+// Element types per plan (chosen by its Reset line): int; "empty" = struct{} (size 0: every value is the same value, written
+// 0); "big" = a 200-byte array (only its first cell carries the value); "string" ("" for 0).
 func driveQueue(plan []M, out *Out, _ []string) {
-	var q *lists.Queue[int]
-	var s *lists.Stack[int]
+	i := 0
+	for i < len(plan) {
+		j := i + 1
+		for j < len(plan) && str(plan[j], "op") != "Reset" {
+			j++
+		}
+		switch str(plan[i], "ty") {
+		case "empty":
+			driveQueueT(plan[i:j], out, func(int) struct{} { return struct{}{} }, func(struct{}) int { return 0 })
+		case "big":
+			driveQueueT(plan[i:j], out, func(v int) [25]int { return [25]int{v} }, func(x [25]int) int { return x[0] })
+		case "string":
+			driveQueueT(plan[i:j], out, func(v int) string {
+				if v == 0 {
+					return ""
+				}
+				return strconv.Itoa(v)
+			}, func(x string) int { v, _ := strconv.Atoi(x); return v })
+		default:
+			driveQueueT(plan[i:j], out, func(v int) int { return v }, func(v int) int { return v })
+		}
+		i = j
+	}
+}
+
+func driveQueueT[T any](plan []M, out *Out, to func(int) T, from func(T) int) {
+	var q *lists.Queue[T]
+	var s *lists.Stack[T]
 	kind := "queue"
+	ret := func(e M, v T, ok bool) { e["ret"], e["ok"] = from(v), ok }
 	for _, c := range plan {
 		op := str(c, "op")
 		e := M{"op": op, "arg": num(c, "arg"), "ret": 0, "ok": true, "len": 0, "pv": 0, "pok": false, "panic": ""}
 		if op == "Reset" {
 			kind = str(c, "kind")
-			q, s = new(lists.Queue[int]), new(lists.Stack[int])
+			q, s = new(lists.Queue[T]), new(lists.Stack[T])
 			e["kind"] = kind
 			out.Emit(e)
 			continue
@@ -22,28 +55,34 @@ func driveQueue(plan []M, out *Out, _ []string) {
 		e["panic"] = protect(func() {
 			switch op {
 			case "Enqueue":
-				q.Enqueue(num(c, "arg"))
+				q.Enqueue(to(num(c, "arg")))
 			case "Dequeue":
-				e["ret"], e["ok"] = q.Dequeue()
+				v, ok := q.Dequeue()
+				ret(e, v, ok)
 			case "Push":
-				s.Push(num(c, "arg"))
+				s.Push(to(num(c, "arg")))
 			case "Pop":
-				e["ret"], e["ok"] = s.Pop()
+				v, ok := s.Pop()
+				ret(e, v, ok)
 			case "Peek":
 				if kind == "queue" {
-					e["ret"], e["ok"] = q.Peek()
+					v, ok := q.Peek()
+					ret(e, v, ok)
 				} else {
-					e["ret"], e["ok"] = s.Peek()
+					v, ok := s.Peek()
+					ret(e, v, ok)
 				}
 			}
 		})
 		p2 := protect(func() {
 			if kind == "queue" {
 				e["len"] = q.Len()
-				e["pv"], e["pok"] = q.Peek()
+				v, ok := q.Peek()
+				e["pv"], e["pok"] = from(v), ok
 			} else {
 				e["len"] = len(*s)
-				e["pv"], e["pok"] = s.Peek()
+				v, ok := s.Peek()
+				e["pv"], e["pok"] = from(v), ok
 			}
 		})
 		if e["panic"] == "" {
